@@ -7,16 +7,16 @@ CHECKS = {
    text="Every kernel compiled for x86-64 (AVX-512, AVX2, SSSE3, portable; each called individually through the hook, so dead code on this CPU is executed) and the dispatcher, every length 0..=320 with destination offsets 0..63 and 7 source offsets, every length 321..=1100 (thorough 2200 and around 4096/8192/65536) with boundary offsets, all 256 scalars on boundary lengths, rotations giving every lane every byte value, one-hot positions and packed bit vectors with every padding-bit count; results must equal element-wise GF(256) arithmetic and nothing outside the destination may change.",
    note="NEON cannot execute here; lengths above 1100 (thorough 2200) only around powers of two."),
  "C12": dict(level="exploration", design="5/C12", technique="the C11 kernel grid, the complete slab pair grid and whole encode/decode workloads enumerated under a guard-page allocator (every heap operand flush against a PROT_NONE page, at its end and at its start) in child processes",
-   text="Out-of-bounds accesses are made observable rather than inferred: a page-heap global allocator places every heap allocation against an inaccessible page; the complete kernel grid, all (dest, src) pairs of 1..6-symbol slabs with four mappings, and encode/decode workloads run under both placements; a fault is a violation with the case in flight as replay. Aliasing/range refusals and the index-range facts of the unchecked table look-ups are enumerated completely.",
+   text="Out-of-bounds accesses are made observable rather than inferred: a page-heap global allocator places every heap allocation against an inaccessible page; the complete kernel grid, all (dest, src) pairs of 1..6-symbol slabs with four mappings, successive reorder mappings with pair operations after each, the remaining public Symbol/SymbolSlab operations, and encode/decode workloads run under both placements; a fault is a violation with the case in flight as replay. Aliasing/range refusals and the index-range facts of the unchecked table look-ups are enumerated completely.",
    note="Stacked-borrows aliasing is judged by Miri on fixed replays in the thorough tier only (harness-miri); NEON cannot execute."),
  "C13": dict(level="exploration", design="5/C13", technique="exhaustive enumeration of all 2^32 payload IDs and per-field-complete OTI grid against reference layouts",
    text="Every 4-byte payload ID (thorough: all 2^32; quick: 8 SBNs x all 2^24 ESIs) is parsed, read back and re-serialised and compared with the RFC layout written independently; OTI fields are each enumerated over their whole width against three backgrounds, packets over payload lengths 0..=300 and 65535.",
    note="The 88-bit OTI space is covered per field (each output byte is a function of one field, which the grid verifies lane by lane), not as a product. Big-endian RFC 3.2/3.3 layout as written in rfcref."),
  "C14": dict(level="exploration", design="5/C14", technique="complete breakpoint grid (P x F x WS) against a u128 reference of RFC 6330 4.3, plus public-API binding and round trips",
-   text="Every point of a grid built from the breakpoints of the derivation (all n/K' thresholds of the memory budget, 2^32 quotient boundaries, block-count limits) is derived by the real code and by an independent u128 reference and must agree wherever a valid configuration exists; Z must be monotone in the budget; derived configurations round-trip through Encoder/Decoder.",
+   text="Every point of a grid built from the breakpoints of the derivation (all n/K' thresholds of the memory budget, 2^32 quotient boundaries, block-count limits) is derived by the real code and by an independent u128 reference and must agree wherever a valid configuration exists; Z must be monotone in the budget; derived configurations round-trip through Encoder/Decoder; the EncoderBuilder is explored as a state machine (every sequence of up to 3/4 setter, build and clone calls: the result may depend on the current settings only).",
    note="F and WS between breakpoints are not enumerated (the derivation is piecewise constant); Al=SS=8 for P>=64 else 1 is taken as the implementation's documented choice."),
  "C15": dict(level="exploration", design="5/C15", technique="exhaustive enumeration of all K and all (K',X) tuples in the release and the overflow-checking build against an independent reference",
-   text="All K in 0..=56403 and (thorough) all ~8*10^9 (K', X) pairs are pushed through the real tuple generator in both overflow-check settings and compared with an independent Rand/Deg/Tuple; the algebraically solved y+i wrap-around inputs come first and also go through repair_packets / decode.",
+   text="All K in 0..=56403 (ascending on 16 threads, and descending / zig-zag around every table row on one thread: the answer must not depend on earlier look-ups) and (thorough) all ~8*10^9 (K', X) pairs are pushed through the real tuple generator in both overflow-check settings and compared with an independent Rand/Deg/Tuple; the algebraically solved y+i wrap-around inputs come first and also go through repair_packets / decode.",
    note="Reference tables V0-V3, Table 2, degree table are transcribed from the pinned commit (no RFC copy on the image). Quick tier covers 16 of the 477 K' completely."),
  "C19": dict(level="exploration", design="5/C19", technique="complete grid T x Z x boundary-F x Al against a u128 acceptance predicate",
    text="Every T (thorough: all 65535) x every Z x every F adjacent to a limit or to a 2^32 multiple of the symbol count x alignment classes is passed to the real constructor under catch_unwind; accept/refuse must equal the documented predicate evaluated in u128 and accepted values must be echoed.",
@@ -28,7 +28,7 @@ CHECKS = {
    text="The state graph of a real block decoder under all deliveries of subsets of a packet universe (bounded number of erased source symbols, every subset of H+4 near and 4 far repair symbols) is explored on clones; at every node the answer must equal [all source present or rank = L] computed by an independent incremental echelon basis over the RFC constraint matrix, and bytes must be the data. Counts of legitimate failures, fast-path entries and forced fall-backs prove non-vacuity. Also run in the debug-assertions build.",
    note="Reference tables transcribed from the pinned commit. Canonical arrival order per node (order independence is C08). Large K only with fixed erasure patterns."),
  "C03": dict(level="exploration", design="5/C03 and section 7", technique="complete enumeration of all (K+h)-subsets, h in {0,1,2}, of fixed finite universes with exact failure counts and a rank oracle",
-   text="Bounded version of a statistical claim: for fixed universes every subset of size K, K+1, K+2 (not containing all source symbols) is decoded by the real decoder; each failure must be a genuine rank deficiency, and the exact aggregate failure fractions must satisfy the property's thresholds (<1%, <0.01%, <0.001%) and be non-increasing.",
+   text="Bounded version of a statistical claim: for fixed universes every subset of size K, K+1, K+2 (not containing all source symbols) is decoded by the real decoder; every (K+1)- and (K+2)-subset is also delivered in two calls (the outcome may depend on the set only); each failure must be a genuine rank deficiency, and the exact aggregate failure fractions must satisfy the property's thresholds (<1%, <0.01%, <0.001%) and be non-increasing.",
    note="Decides the property only for the listed finite universes (no sampling, no estimate of the distribution over all 2^24 symbols and all K)."),
  "C08": dict(level="model_checking", design="5/C08", technique="explicit-state exploration to closure: nodes = (real decoder object, delivered packet set), edges = one decode() call with one packet or any ordered pair/triple; exact canonical key confirmed by ==; abstract set model as oracle; both object-level interfaces in lock-step",
    text="All (decoder object, delivered set) states reachable by calling decode() with any universe packet at any time (any order, multiplicity, continuation after completion, block interleaving) and, on the small universes, with any ordered pair or triple in one call (any mix of batched and single delivery) are enumerated to closure; on every transition the answer must equal the abstract answer of the delivered set (fresh decoder, packet by packet, cross-checked against one call), bytes must be the data, the anchored counting invariant must hold and decode() must agree with add_new_packet()+get_result(). Only observable results are judged: an object that differs after a batch or after the other interface is explored as a further state. Block universes include sub-blocked configurations (N>1).",
@@ -45,11 +45,11 @@ CHECKS = {
  "C16": dict(level="model_checking", design="5/C16", technique="bounded exhaustive exploration of admissible operation sequences on real dense + sparse matrices against a plain-array model (exact dedup on the objects' Hash/Eq), plus lock-step traces of the real solver over a forwarding BinaryMatrix implementation",
    text="All admissible sequences (depth 3 quick / 4 thorough) of interface operations over boundary alphabets from seeds whose dense tails cross the 64-bit word boundary are applied to a real DenseBinaryMatrix, a real SparseBinaryMatrix and a 2-D array with undefined cells; all cells and all queries must agree in every state. The real solver is additionally run on a matrix that forwards every call to both implementations and the model, for encoding (K'<=101 quick / 500 thorough) and decoding traces, in release and debug-assertions builds.",
    note="Admissibility = preconditions read off the code; matrices whose dense tail was dropped are only exercised with get/set/swap/add/resize."),
- "C17": dict(level="model_checking", design="5/C17", technique="loom DPOR exploration of all interleavings of real threads on the real cache code (shadow manifest over /repo/src), plus explicit-state exploration of request histories on the real global cache against a FIFO model",
-   text="Eleven loom harnesses (same size, overlapping sizes, insert races eviction, hit races eviction, double eviction, sizes on the far side of the 250-symbol back-end threshold, large+small at capacity; 2-4 threads; unbounded DPOR where feasible, preemption bound 2-4 otherwise) run the real SourceBlockEncoder::new against the real cache compiled with loom primitives; every execution checks transparency and the cache invariants. Request histories around the capacity are explored to a depth bound with the snapshot as exact state.",
+ "C17": dict(level="model_checking", design="5/C17", technique="loom DPOR exploration of all interleavings of real threads on the real cache code (shadow manifest over /repo/src), plus explicit-state exploration of request histories on the real global cache (policy-agnostic invariants, time-limited requests) and exhaustive confusable-size pairs",
+   text="Eleven loom harnesses (same size, overlapping sizes, insert races eviction, hit races eviction, double eviction, sizes on the far side of the 250-symbol back-end threshold, large+small at capacity; 2-4 threads; unbounded DPOR where feasible, preemption bound 2-4 otherwise) run the real SourceBlockEncoder::new against the real cache compiled with loom primitives; every execution checks transparency and the cache invariants. Request histories (nodes = histories replayed on a cleared cache, merged on equal real contents; alphabet relative to the contents plus large sizes; seed prefixes around the capacity incl. full caches of large, re-requested plans) are explored to a depth bound; every request runs under a time limit (a call that never returns is a violation) and no eviction policy is assumed. Every ordered pair of confusable block sizes (rows sharing the systematic index, neighbouring rows, sizes padded to the same K') is requested on an empty cache in child processes.",
    note="<= 4 threads; std Mutex internals trusted; loom failure replay = deterministic re-exploration of the named model.", engine="rqcheck+rqloom"),
  "C18": dict(level="exploration", design="5/C18", technique="complete enumeration of windows (s,n), whole repair streams and plan instances; differential oracle (window vs singles, plan vs plan)",
-   text="All windows with s+n<=24 and the windows at the 2^24 end for every K of the ladder, two complete 2^24-K streams under two tilings, six ways of obtaining an encoder per K, the per-object packet list over a configuration box, and every block of every object (box and tall objects with every symbol count 2..330/1300 in 2..5/7 blocks) against a stand-alone block encoder and an encoder with a freshly generated plan for the same bytes.",
+   text="All windows with s+n<=24, long windows around every length at which a strategy could switch (L, K', K, 2L, 64, 256, 1000) and the windows at the 2^24 end for every K of the ladder, two complete 2^24-K streams under two tilings, six ways of obtaining an encoder per K, the per-object packet list over a configuration box, and every block of every object (box and tall objects with every symbol count 2..330/1300 in 2..5/7 blocks) against a stand-alone block encoder and an encoder with a freshly generated plan for the same bytes.",
    note="Requests beyond ESI 2^24-1 are outside the property and not judged."),
  "C07": dict(level="exploration", design="5/C07", technique="complete enumeration of the configuration lattice (4 builds x kernel family x threshold x plan mode) with a differential digest oracle",
    text="Every configuration that exists on this host (in the quick tier: {release, debug-assertions+overflow-checks} x {std, no_std} x {auto/AVX-512, AVX2, SSSE3, portable} forced through the dispatchers x sparse threshold {0,250,inf} x {cache cold/warm, explicit plan, unplanned}) runs the same workload; packets, decode outcomes and decoded bytes must be identical for every item, including a rank-deficient set and a set that forces the fast path to fall back.",
